@@ -190,6 +190,7 @@ type c32Params struct {
 	vpk          bool
 	verdicts     []int // callback verdict alphabet
 	maxTries     int
+	sameUser     bool // every request names the same (symbolic) user; default: fresh symbolic byte per request
 	// C33 hooks
 	permsFor   func(w *c32World, e *c32Call) *Permissions // Permissions of an accepting verdict (nil: tagged, no options)
 	remote     net.Addr
@@ -210,6 +211,7 @@ type c32World struct {
 	curSet      int
 	partials    int
 	partialUser string
+	ub          byte // user name byte of the latest request
 	successes   int
 	discs       int
 	failures    int // USERAUTH_FAILURE messages without partial success
@@ -247,7 +249,11 @@ func (w *c32World) newReq(idx int) *c32Req {
 	a := w.p.alphabet
 	c := a[verifrt.Choose(0, len(a)-1)]
 	r := &c32Req{idx: idx, kind: c >> 4, variant: c & 15, service: serviceSSH}
-	ub := verifrt.U8()
+	ub := w.ub
+	if !w.p.sameUser || idx == 0 {
+		ub = verifrt.U8()
+		w.ub = ub
+	}
 	r.user = string([]byte{'u', ub})
 	switch r.kind {
 	case c32KNone:
@@ -721,6 +727,34 @@ func Verif_C32_Auth2None() {
 // Verif_C32_Auth2Vpk: as Auth2Plain with VerifiedPublicKeyCallback.
 func Verif_C32_Auth2Vpk() {
 	c32Run(c32Params{k: 2, alphabet: c32Alphabet(0), keys: 2, mask: 7, vpk: true, verdicts: c32AllVerdicts, maxTries: -1})
+}
+
+var c32Alphabet3 = []int{
+	c32A(c32KNone, 0), c32A(c32KPassword, 0), c32A(c32KKbdInt, 0),
+	c32A(c32KQuery, c32SGood), c32A(c32KSigned, c32SGood), c32A(c32KSigned, c32SCertAlgo),
+}
+
+// Verif_C32_Auth3Plain: three requests over {none, password, keyboard-interactive, query, genuine
+// signed request, signed request with a certificate algorithm for a plain key}, one key.
+func Verif_C32_Auth3Plain() {
+	c32Run(c32Params{k: 3, alphabet: c32Alphabet3, keys: 1, mask: 7, verdicts: c32AllVerdicts, maxTries: -1})
+}
+
+// Verif_C32_Auth3None: as Auth3Plain with NoClientAuth and NoClientAuthCallback.
+func Verif_C32_Auth3None() {
+	c32Run(c32Params{k: 3, alphabet: c32Alphabet3, keys: 1, mask: 7, noClientAuth: true, noneCb: true, verdicts: c32AllVerdicts, maxTries: -1})
+}
+
+// Verif_C32_Auth3Vpk: as Auth3Plain with VerifiedPublicKeyCallback.
+func Verif_C32_Auth3Vpk() {
+	c32Run(c32Params{k: 3, alphabet: c32Alphabet3, keys: 1, mask: 7, vpk: true, verdicts: c32AllVerdicts, maxTries: -1})
+}
+
+// Verif_C32_Auth3Keys: three publickey requests (query / genuine signed, two keys), verdicts
+// accept, reject, partial success naming {publickey, keyboard-interactive}.
+func Verif_C32_Auth3Keys() {
+	c32Run(c32Params{k: 3, alphabet: []int{c32A(c32KQuery, c32SGood), c32A(c32KSigned, c32SGood)}, keys: 2, mask: 2,
+		verdicts: []int{c32VAccept, c32VReject, c32VPartialPkK}, maxTries: -1})
 }
 
 // Verif_C32_Layout: (K) buildDataSignedForAuth against the RFC 4252 section 7 transcription for
